@@ -12,6 +12,8 @@ import (
 	"verif/harness/evid"
 	"verif/harness/oracle"
 	"verif/harness/rig"
+
+	pb "github.com/wealdtech/eth2-signer-api/pb/v1"
 )
 
 func idSet(kind string, n int) []uint64 {
@@ -161,6 +163,7 @@ func C12(cfg Cfg) int {
 			_ = os.RemoveAll(cfg.Dir(fmt.Sprintf("c12-%d-%s", n, kind)))
 		}
 	}
+	c12Retry(run, cfg)
 	// Commit arrival orders: observed through the routing sender's sequence numbers in a dedicated small cluster.
 	c12Orders(run, cfg, orders)
 	if run.Get("generations_succeeded") == 0 {
@@ -221,4 +224,54 @@ func c12Orders(run *evid.Run, cfg Cfg, orders map[string]bool) {
 	}
 	sort.Strings(keys)
 	run.Set("commit_arrival_orders_seen", keys)
+}
+
+// c12Retry: a first attempt is committed on only some participants (the commit messages to the others are
+// lost), the stale sessions are aborted, and the same name is requested again from an instance that does not
+// hold the account.  Whatever the second attempt reports, a reported success must be a consistent key.
+func c12Retry(run *evid.Run, cfg Cfg) {
+	for round := 0; round < cfg.N(4, 24) && run.NumViolations() < 5; round++ {
+		n := 3 + round%2
+		t := n/2 + 1
+		ids := idSet("small", n)
+		c, err := rig.NewCluster(rig.ClusterOpts{Dir: cfg.Dir(fmt.Sprintf("c12-retry-%d", round)), IDs: ids})
+		if err != nil {
+			run.Inconclusive(err.Error())
+			return
+		}
+		account := fmt.Sprintf("D/retried-%d", round)
+		keep := ids[1+round%(n-1)] // the only participant whose commit message gets through
+		c.Hook = func(m *rig.Msg) rig.Action {
+			if m.Kind == "commit" && m.To != keep {
+				return rig.Action{Drop: true}
+			}
+			return rig.Action{}
+		}
+		_, _, err1 := c.Inst[ids[0]].Stack.Process.OnGenerate(context.Background(), rig.Client1(), account, []byte("pass"), uint32(t), uint32(n))
+		c.Hook = nil
+		if err1 == nil {
+			run.Violate("generation reported success although commit messages were lost", nil)
+		}
+		first := dkgHolders(c, account)
+		// Clear the sessions that never committed (a coordinator's abort, or the timeout, does this).
+		peer := c.Endpoint(ids[0]).Name
+		for _, id := range ids {
+			_, _ = c.Inst[id].Stack.ReceiverH.Abort(rig.PeerCtx(peer), &pb.AbortRequest{Account: account})
+		}
+		pub, _, err2 := c.Inst[ids[0]].Stack.Process.OnGenerate(context.Background(), rig.Client1(), account, []byte("pass"), uint32(t), uint32(n))
+		run.Eval(1)
+		run.Distinct(fmt.Sprintf("retry after partial commit n=%d holders-after-first=%d second-ok=%v", n, len(first), err2 == nil))
+		run.Count("retry_scenarios", 1)
+		if err2 == nil {
+			ctx := map[string]any{"n": n, "t": t, "committed_in_first_attempt": keep}
+			for _, p := range oracle.CheckDKGViews(dkgHolders(c, account), pub, uint32(t), ids) {
+				run.Violate("retry after a partially committed attempt reported success but: "+p, ctx)
+			}
+			problems, _ := dkgThresholdSign(c, account, pub, t, byte(round))
+			for _, p := range problems {
+				run.Violate("retry after a partially committed attempt reported success but: "+p, ctx)
+			}
+		}
+		c.Close()
+	}
 }
